@@ -140,6 +140,14 @@ def gen_case(rng, tier="quick"):
         "jw": _pick(rng, [[0, 3, 2, 2, 4, 1], [0, 1, 1, 1, 6, 2],
                           [0, 6, 3, 2, 1, 0], [0, 0, 0, 1, 1, 1]]),
     }
+    if api in ("compute_dynamics", "compute_dynamics_with_field", "tempo",
+               "mean_field_tempo", "gradient") and case["steps"] < 33 \
+            and rng.random() < 0.12:
+        # a second thread of the caller runs another library call at the
+        # same time (two progress reporters alive at once, entered and left
+        # in whatever order the schedule decides)
+        case["concurrent"] = {"steps": rng.randrange(2, 7),
+                              "progress": _pick(rng, PROGRESS, [3, 4, 1, 1])}
     if case["steps"] >= 33 and case["sched"]["p_switch"] > 0.05:
         case["sched"]["p_switch"] = 0.05     # bounded event log
     return case
@@ -148,6 +156,8 @@ def gen_case(rng, tier="quick"):
 def shrink(case):
     """Smaller variants of a case (tried in order by the minimiser)."""
     out = []
+    if case.get("concurrent"):
+        c = dict(case); c.pop("concurrent"); out.append(c)
     if case.get("calls", 1) > 1:
         c = dict(case); c["calls"] = 1; out.append(c)
     if case.get("directed"):
@@ -717,8 +727,18 @@ def run_case(case, dec):
             outcome = "returned"
             held = None   # a caller may well keep the exception (and with it
             #               the traceback and every frame) while it cleans up
+            other = None
+            if last and case.get("concurrent"):
+                other = _second_caller(case, sim)
+                other.start()
             try:
-                call()
+                try:
+                    call()
+                finally:
+                    if other is not None:
+                        # the caller waits for its own thread before it
+                        # looks at what the library left behind
+                        other.join()
             except models.INJECTED as e:
                 outcome = "raised:InjectedFault"
                 held = e
@@ -782,6 +802,25 @@ def run_case(case, dec):
             outcomes[-1] != "returned":
         res["faults_fired"]["input:" + f["kind"]] = 1
     return res
+
+
+def _second_caller(case, sim):
+    """Another thread of the caller's program running its own library call
+    (a plain compute_dynamics with its own progress reporter)."""
+    import oqupy
+    o = models.ops()
+    cc = case["concurrent"]
+    system = oqupy.System(0.3 * o["x"] + 0.1 * o["z"])
+
+    def body():
+        try:
+            oqupy.compute_dynamics(system, o["up"], dt=0.1,
+                                   num_steps=cc["steps"],
+                                   progress_type=cc["progress"])
+            sim.ev("second-caller", "returned")
+        except Exception as e:  # noqa: BLE001 - e.g. the broken stream
+            sim.ev("second-caller", "raised", type(e).__name__)
+    return simsched.SimThread(target=body, name="second-caller")
 
 
 def _quiescence_oracle(sim, env, case, ci):
